@@ -4,6 +4,7 @@ package eng
 
 import (
 	"context"
+	"os"
 	"fmt"
 	"math"
 	"strings"
@@ -70,7 +71,12 @@ func (s *Session) Exec(q string) (res Result) {
 	return s.ExecCtx(s.Ctx(), q)
 }
 
+var showSQL = os.Getenv("VERIF_SHOW_SQL") != ""
+
 func (s *Session) ExecCtx(ctx *sql.Context, q string) (res Result) {
+	if showSQL {
+		fmt.Fprintf(os.Stderr, "[s%d] %s\n", s.ID, q)
+	}
 	defer func() {
 		if r := recover(); r != nil {
 			res = Result{Kind: "panic", Msg: fmt.Sprint(r)}
